@@ -54,6 +54,17 @@ PLAN = {
             {"run": "TestC03_Shipped", "checks": 1000, "shards": 2, "timeout": 3000},
         ],
     },
+    "C04": {
+        "wtf": True,
+        "quick": [
+            {"run": "TestC04_Filters", "checks": 6000},
+            {"run": "TestC04_CLI", "checks": 60},
+        ],
+        "thorough": [
+            {"run": "TestC04_Filters", "checks": 300000, "shards": 14, "timeout": 3000},
+            {"run": "TestC04_CLI", "checks": 2000, "shards": 2, "timeout": 3000},
+        ],
+    },
     "C12": {
         "quick": [
             {"run": "TestC12_Model", "checks": 4000},
